@@ -93,6 +93,28 @@ func dumpAndReplay(c *run.Ctx, m mcRun, timeout time.Duration) error {
 	return nil
 }
 
+// simulateAndReplay lets TLC generate random deep behaviours of the machine (-simulate) and replays every
+// prefix that ends in an idle state.
+func simulateAndReplay(c *run.Ctx, m mcRun, num, depth int, timeout time.Duration) error {
+	cfg := autogradCfg(c, fmt.Sprintf("sim_%s_%d_%d.cfg", m.module, m.nodes, m.bps), m.nodes, m.bps, m.reset, m.scribble, false, true, "")
+	c.Logf("TLC simulating %d behaviours of depth %d of %s (MaxNodes=%d MaxBP=%d)", num, depth, m.module, m.nodes, m.bps)
+	res, err := c.MustTLC(run.TLCOpts{Module: m.module, Config: cfg, Workers: 1, HeapMB: 8000, Timeout: timeout, Tag: "sim-" + m.module,
+		Args: []string{"-simulate", fmt.Sprintf("num=%d", num), "-depth", fmt.Sprint(depth), "-seed", fmt.Sprint(c.Seed)}})
+	if err != nil {
+		return err
+	}
+	n, err := c.ReplayDump(res.Out)
+	if err != nil {
+		return err
+	}
+	if n == 0 {
+		return run.Brokenf("TLC simulation of %s produced no behaviours", m.module)
+	}
+	c.Traces += n
+	c.AddInt("simulated_prefixes_replayed", n)
+	return nil
+}
+
 func init() {
 	register("C01", "model_checking", func(c *run.Ctx) error {
 		c.Rule = "TLC explores the Autograd machine exhaustively (every DAG over the alphabet up to MaxNodes tensors, every tracked assignment, root, valid edge order, leaf-sharing repeated back-propagations, resets) and checks C01_Total / C01_Once in every state; every transition into an idle state is dumped with a witness path and replayed on the real library with the complete projected state compared; distinct = distinct witness paths; non-trivial = at least two tensors"
@@ -119,6 +141,14 @@ func init() {
 		if err := dumpAndReplay(c, tmc, 30*time.Minute); err != nil {
 			return err
 		}
+		// deeper graphs than the exhaustive bound: random behaviours of the same machine
+		sims, depth := 40, 30
+		if c.Thorough {
+			sims, depth = 1500, 45
+		}
+		if err := simulateAndReplay(c, mcRun{"MC_AutogradTensor", 9, 2, false, false}, sims, depth, 30*time.Minute); err != nil {
+			return err
+		}
 		// code -> spec: histories recorded from the real library, validated by TLC
 		nt := 150
 		if c.Thorough {
@@ -142,6 +172,13 @@ func init() {
 			return err
 		}
 		if err := dumpAndReplay(c, dump, 40*time.Minute); err != nil {
+			return err
+		}
+		sims, depth := 60, 40
+		if c.Thorough {
+			sims, depth = 2500, 60
+		}
+		if err := simulateAndReplay(c, mcRun{"MC_AutogradFlags", 12, 5, true, false}, sims, depth, 30*time.Minute); err != nil {
 			return err
 		}
 		nt := 150
